@@ -37,9 +37,9 @@ def own1(ctx: Ctx) -> List[Ob]:
     m = ctx.model
     for f in m.all_funcs():
         for e in ctx.fx.direct[f]:
-            if e.root == "fresh":
-                continue
             ok = in_owner_layer(m, f)
+            if e.root == "fresh" and ok:
+                continue  # the owner layer initialising an object it just built
             props = ["C01"]
             if e.field in ("_nodes_by_data_id", SLOT, "_data_id", "_data", "_node_by_id"):
                 props.append("C02")
@@ -72,7 +72,7 @@ def _ideq_props(f: Func, op: str, operand: ast.AST, slot: bool) -> List[str]:
     typed = cls.startswith("Typed") or cls == "_SystemRootTypedNode"
     is_self = isinstance(operand, ast.Name) and operand.id == f.self_name
     if op == "remove":
-        return ["C02"] if slot else ["C01"]
+        return ["C02"] if slot else ["C01", "C08"]
     if op == "index" and is_self:
         return ["C15"] if typed else ["C10"]
     if op == "index":
@@ -82,7 +82,7 @@ def _ideq_props(f: Func, op: str, operand: ast.AST, slot: bool) -> List[str]:
     return ["C10"]
 
 
-@rule("ID-EQ", ["C01", "C02", "C04", "C10", "C15"], floor=6, section="3.2")
+@rule("ID-EQ", ["C01", "C02", "C04", "C08", "C10", "C15"], floor=6, section="3.2")
 def ideq(ctx: Ctx) -> List[Ob]:
     """identity discipline: no implicit-equality list operation (remove/index/count/in) on a node list with a node operand (Node.__eq__ compares data)"""
     obs: List[Ob] = []
@@ -209,7 +209,7 @@ def pure(ctx: Ctx) -> List[Ob]:
 
 
 # -------------------------------------------------------------------- ESCAPE
-@rule("ESCAPE", ["C02"], floor=40, section="3.4")
+@rule("ESCAPE", ["C02", "C09"], floor=40, section="3.4")
 def escape(ctx: Ctx) -> List[Ob]:
     """no public function hands out an alias of index storage (a clone list or the id maps)"""
     obs: List[Ob] = []
@@ -232,7 +232,7 @@ def escape(ctx: Ctx) -> List[Ob]:
                 if isinstance(n, ast.Return) and n.value is not None:
                     fl = {fld for _r, fld in ctx.env.fields(f, n.value)}
                     if fl & set(leaks):
-                        obs.append(ctx.ob("ESCAPE", ["C02"], f, n, n, False,
+                        obs.append(ctx.ob("ESCAPE", ["C02", "C09"] if "find" in f.name or f.name == "__getitem__" else ["C02"], f, n, n, False,
                                           f"returns the internal {sorted(fl & set(leaks))} container itself: a caller that "
                                           "mutates the result corrupts the data_id index (get_clones copies)"))
         else:
